@@ -2,6 +2,10 @@
 From HostdBase Require Import Base.
 From HostdRegistry Require Import Model.
 
+(* case splits of the Get and PutF branches of [step] *)
+Ltac t_get s k := destruct (alookup k (entries s)); cbn.
+Ltac t_putf s k vf f := destruct vf; cbn; [destruct f; [|destruct (alookup k (entries s))]|]; cbn.
+
 (* the trace of a run: every op with the observation the model makes *)
 Fixpoint trace (s : state) (l : list op) : list (op * obs) :=
   match l with
@@ -49,7 +53,9 @@ Lemma step_lookup s o k :
   alookup k (entries (fst (step s o))) =
   acc_upd k (alookup k (entries s)) (o, snd (step s o)).
 Proof.
-  destruct o as [n|k' e exp valid tie|k'| |h|k']; cbn; try reflexivity.
+  destruct o as [n|k' e exp valid tie|k'| |h|k'|fok| |k' e vf f|k'| ]; cbn; try reflexivity.
+  2: { t_get s k'; reflexivity. }
+  2: { t_putf s k' vf f; reflexivity. }
   destruct valid; cbn; [|reflexivity].
   destruct (alookup k' (entries s)) as [old|] eqn:L.
   - destruct (supersedes old e tie); cbn; [|reflexivity].
@@ -79,7 +85,7 @@ Proof. apply (read_last_accepted_from init l k). Qed.
 (* a Get issued after any history returns exactly that *)
 Lemma get_returns_last_accepted l k :
   snd (step (runs init l) (Get k)) = OGet (last_accepted k None (trace init l)).
-Proof. cbn; now rewrite read_last_accepted. Qed.
+Proof. cbn [step]; rewrite <- read_last_accepted. now destruct (alookup k (entries (runs init l))). Qed.
 
 (* acceptance: only if valid and (new key with room, or supersedes); effect exact *)
 Lemma put_accept_only_if s k e exp valid tie s' r :
@@ -140,7 +146,8 @@ Definition MetricInv (s : state) : Prop := metric s = Z.of_N (count s).
 
 Lemma step_metric s o : MetricInv s -> MetricInv (fst (step s o)).
 Proof.
-  unfold MetricInv; destruct o as [n|k e exp valid tie|k| |h|k]; cbn; try (intros H; exact H).
+  unfold MetricInv; destruct o as [n|k e exp valid tie|k| |h|k|fok| |k e vf f|k| ]; cbn; try (intros H; exact H).
+  all: try (t_get s k; intros H; exact H). all: try (t_putf s k vf f; intros H; exact H).
   destruct valid; cbn; [|intros H; exact H].
   destruct (alookup k (entries s)) as [old|] eqn:L.
   - destruct (supersedes old e tie); cbn; [|intros H; exact H].
@@ -167,7 +174,8 @@ Definition lowers (s : state) (o : op) : bool :=
 
 Lemma step_cap s o : lowers s o = false -> CapInv s -> CapInv (fst (step s o)).
 Proof.
-  unfold CapInv; destruct o as [n|k e exp valid tie|k| |h|k]; cbn; try (intros _ H; exact H).
+  unfold CapInv; destruct o as [n|k e exp valid tie|k| |h|k|fok| |k e vf f|k| ]; cbn; try (intros _ H; exact H).
+  all: try (t_get s k; intros _ H; exact H). all: try (t_putf s k vf f; intros _ H; exact H).
   - intros Hl _. apply N.ltb_ge in Hl. exact Hl.
   - intros _; destruct valid; cbn; [|intros H; exact H].
     destruct (alookup k (entries s)) as [old|] eqn:L.
@@ -198,7 +206,8 @@ Proof. intros H; apply cap_inv_from; [exact H|]. unfold CapInv; cbn; lia. Qed.
 Lemma insert_respects_limit s o :
   (count s < count (fst (step s o)))%N -> (count s < limit s)%N.
 Proof.
-  destruct o as [n|k e exp valid tie|k| |h|k]; cbn; try lia; try (unfold count; cbn; lia).
+  destruct o as [n|k e exp valid tie|k| |h|k|fok| |k e vf f|k| ]; cbn; try lia; try (unfold count; cbn; lia).
+  all: try (t_get s k; unfold count; cbn; lia). all: try (t_putf s k vf f; lia).
   destruct valid; cbn; [|lia].
   destruct (alookup k (entries s)) as [old|] eqn:L.
   - destruct (supersedes old e tie); cbn; [|lia].
@@ -222,7 +231,8 @@ Proof. exists cap_witness; unfold CapInv; vm_compute; intros H; now apply H. Qed
 Definition is_tip (o : op) : bool := match o with Tip _ => true | _ => false end.
 
 Definition eq_but_tip (a b : state) : Prop :=
-  entries a = entries b /\ exps a = exps b /\ limit a = limit b /\ metric a = metric b.
+  entries a = entries b /\ exps a = exps b /\ limit a = limit b /\ metric a = metric b /\
+  pend_r a = pend_r b /\ pend_w a = pend_w b /\ mreads a = mreads b /\ mwrites a = mwrites b.
 
 Lemma eq_but_tip_refl a : eq_but_tip a a.
 Proof. repeat split. Qed.
@@ -231,20 +241,27 @@ Lemma step_eq_but_tip a b o :
   eq_but_tip a b ->
   eq_but_tip (fst (step a o)) (fst (step b o)) /\ snd (step a o) = snd (step b o).
 Proof.
-  intros (He & Hx & Hl & Hm).
-  destruct o as [n|k e exp valid tie|k| |h|k]; cbn;
-    try (unfold count; rewrite ?He, ?Hx, ?Hl, ?Hm; repeat split; assumption).
-  destruct valid; cbn; [|repeat split; assumption].
-  unfold count; rewrite He, Hl.
-  destruct (alookup k (entries b)) as [old|].
-  - destruct (supersedes old e tie); cbn; [|repeat split; assumption].
-    unfold eq_but_tip, write; cbn. rewrite He, Hx, Hl, Hm. repeat split.
-  - destruct (limit b <=? N.of_nat (length (entries b)))%N; cbn; [repeat split; assumption|].
-    unfold eq_but_tip, write; cbn. rewrite He, Hx, Hl, Hm. repeat split.
+  intros (He & Hx & Hl & Hm & H1 & H2 & H3 & H4).
+  assert (E : eq_but_tip a b) by (repeat split; assumption).
+  destruct o as [n|k e exp valid tie|k| |h|k|fok| |k e vf f|k| ]; cbn;
+    try (unfold count; rewrite ?He, ?Hx, ?Hl, ?Hm, ?H1, ?H2, ?H3, ?H4; repeat split; assumption).
+  - destruct valid; cbn; [|split; [exact E|reflexivity]].
+    unfold count; rewrite He, Hl.
+    destruct (alookup k (entries b)) as [old|].
+    + destruct (supersedes old e tie); cbn; [|split; [exact E|reflexivity]].
+      unfold eq_but_tip, write; cbn. rewrite He, Hx, Hl, Hm, H1, H2, H3, H4. repeat split.
+    + destruct (limit b <=? N.of_nat (length (entries b)))%N; cbn; [split; [exact E|reflexivity]|].
+      unfold eq_but_tip, write; cbn. rewrite He, Hx, Hl, Hm, H1, H2, H3, H4. repeat split.
+  - rewrite He. destruct (alookup k (entries b)); cbn; [|split; [exact E|reflexivity]].
+    unfold eq_but_tip; cbn. rewrite He, Hx, Hl, Hm, H1, H2, H3, H4. repeat split.
+  - unfold eq_but_tip, flush; cbn. rewrite He, Hx, Hl, Hm, H1, H2, H3, H4. repeat split.
+  - destruct vf; cbn; [|split; [exact E|reflexivity]].
+    destruct f; [split; [exact E|reflexivity]|].
+    rewrite He. destruct (alookup k (entries b)); split; try exact E; reflexivity.
 Qed.
 
 Lemma tip_eq_but_tip a b h : eq_but_tip a b -> eq_but_tip (fst (step a (Tip h))) b.
-Proof. intros (He & Hx & Hl & Hm); repeat split; assumption. Qed.
+Proof. intros (He & Hx & Hl & Hm & H1 & H2 & H3 & H4); repeat split; assumption. Qed.
 
 Lemma without_tips_from a b l :
   eq_but_tip a b ->
@@ -256,7 +273,7 @@ Proof.
   - destruct o; try discriminate. cbn [filter is_tip negb trace step fst].
     change (runs b (Tip h :: t)) with (runs (fst (step b (Tip h))) t).
     cbn [filter fst is_tip negb].
-    apply IH. destruct E as (He & Hx & Hl & Hm); repeat split; assumption.
+    apply IH. destruct E as (He & Hx & Hl & Hm & H1 & H2 & H3 & H4); repeat split; assumption.
   - assert (F : filter (fun o => negb (is_tip o)) (o :: t) = o :: filter (fun o => negb (is_tip o)) t)
       by (cbn [filter]; now rewrite T).
     rewrite F.
@@ -286,7 +303,9 @@ Definition last_accepted_exp (k : N) (cur : option N) (t : list (op * obs)) : op
 Lemma step_lookup_exp s o k :
   alookup k (exps (fst (step s o))) = acc_exp k (alookup k (exps s)) (o, snd (step s o)).
 Proof.
-  destruct o as [n|k' e exp valid tie|k'| |h|k']; cbn; try reflexivity.
+  destruct o as [n|k' e exp valid tie|k'| |h|k'|fok| |k' e vf f|k'| ]; cbn; try reflexivity.
+  2: { t_get s k'; reflexivity. }
+  2: { t_putf s k' vf f; reflexivity. }
   destruct valid; cbn; [|reflexivity].
   destruct (alookup k' (entries s)) as [old|] eqn:L.
   - destruct (supersedes old e tie); cbn; [|reflexivity].
@@ -319,7 +338,8 @@ Definition ExpInv (s : state) : Prop :=
 
 Lemma step_exp_inv s o : ExpInv s -> ExpInv (fst (step s o)).
 Proof.
-  intros I; destruct o as [n|k' e exp valid tie|k'| |h|k']; cbn; try exact I.
+  intros I; destruct o as [n|k' e exp valid tie|k'| |h|k'|fok| |k' e vf f|k'| ]; cbn; try exact I.
+  all: try (t_get s k'; exact I). all: try (t_putf s k' vf f; exact I).
   destruct valid; cbn; [|exact I].
   assert (W : forall dm, ExpInv (write s k' e exp dm)).
   { intros dm k; unfold write; cbn.
@@ -327,7 +347,7 @@ Proof.
     - rewrite !alookup_aset_same; split; discriminate.
     - rewrite !alookup_aset_other by exact Hne. apply I. }
   destruct (alookup k' (entries s)) as [old|].
-  - destruct (supersedes old e tie); cbn; [apply W|exact I].
+  - destruct (supersedes old e tie); cbn; [apply (W 0%Z)|exact I].
   - destruct (limit s <=? count s)%N; cbn; [exact I|apply W].
 Qed.
 
@@ -358,3 +378,89 @@ Lemma expired_witness :
   expired (runs init [SetLimit 1; Put 1 e1 100 true false; Tip 200]) 1 /\
   snd (step (runs init [SetLimit 1; Put 1 e1 100 true false; Tip 200]) Info) = OInfo 1 1 1.
 Proof. split; [exists 100%N; vm_compute; split; reflexivity|vm_compute; reflexivity]. Qed.
+
+(* ---- failing store calls and the access recorder *)
+
+(* Manager.Put while the lookup of the stored entry (or the write) fails with an error other than
+   "not found": refused, nothing changes *)
+Lemma put_fault_changes_nothing s k e valid f :
+  fst (step s (PutF k e valid f)) = s /\
+  exists r, snd (step s (PutF k e valid f)) = OPut false r.
+Proof.
+  cbn. destruct valid; cbn; [|split; [reflexivity|now exists None]].
+  destruct f; [split; [reflexivity|now exists None]|].
+  destruct (alookup k (entries s)) as [old|]; split; try reflexivity; eexists; reflexivity.
+Qed.
+
+(* a FWrite fault on a stored key hands the stored entry back with the error *)
+Lemma put_write_fault_returns_stored s k e old :
+  alookup k (entries s) = Some old -> snd (step s (PutF k e true FWrite)) = OPut false (Some old).
+Proof. intros L; cbn; now rewrite L. Qed.
+
+Definition is_fault (o : op) : bool :=
+  match o with PutF _ _ _ _ | GetF _ | InfoF => true | _ => false end.
+
+Lemma fault_step_changes_nothing s o : is_fault o = true -> fst (step s o) = s.
+Proof.
+  destruct o; try discriminate; intros _; cbn; try reflexivity.
+  apply put_fault_changes_nothing.
+Qed.
+
+(* so a history with failing store calls leaves the registry exactly where the same history
+   without them does, with the same observations for every other operation *)
+Lemma without_faults s l :
+  runs s (filter (fun o => negb (is_fault o)) l) = runs s l /\
+  trace s (filter (fun o => negb (is_fault o)) l) = filter (fun x => negb (is_fault (fst x))) (trace s l).
+Proof.
+  revert s; induction l as [|o t IH]; intros s; [split; reflexivity|].
+  destruct (is_fault o) eqn:F.
+  - assert (Fl : filter (fun o => negb (is_fault o)) (o :: t) = filter (fun o => negb (is_fault o)) t)
+      by (cbn [filter]; now rewrite F).
+    rewrite Fl. change (runs s (o :: t)) with (runs (fst (step s o)) t).
+    pose proof (fault_step_changes_nothing s o F) as E.
+    cbn [trace]. destruct (step s o) as [s' m]; cbn [fst] in *; subst s'.
+    cbn [filter fst]. rewrite F; cbn [negb]. apply IH.
+  - assert (Fl : filter (fun o => negb (is_fault o)) (o :: t) = o :: filter (fun o => negb (is_fault o)) t)
+      by (cbn [filter]; now rewrite F).
+    rewrite Fl.
+    change (runs s (o :: filter (fun o => negb (is_fault o)) t))
+      with (runs (fst (step s o)) (filter (fun o => negb (is_fault o)) t)).
+    change (runs s (o :: t)) with (runs (fst (step s o)) t).
+    cbn [trace]. destruct (step s o) as [s' m]; cbn [fst].
+    destruct (IH s') as [R T]. split; [exact R|].
+    cbn [filter fst]. rewrite F; cbn [negb]. now rewrite T.
+Qed.
+
+(* recorder.Flush — successful or not — touches only the access counters: entries, expiration
+   heights, limit, the registry-entries metric and the tip stay as they are *)
+Definition eq_but_access (a b : state) : Prop :=
+  entries a = entries b /\ exps a = exps b /\ limit a = limit b /\ metric a = metric b /\ tip a = tip b.
+
+Lemma flush_keeps_registry s ok : eq_but_access (fst (step s (Flush ok))) s.
+Proof. repeat split. Qed.
+
+Lemma flush_keeps_entries_metric l ok :
+  let s := runs init l in
+  let s' := fst (step s (Flush ok)) in
+  metric s' = metric s /\ count s' = count s /\ metric s' = Z.of_N (count s').
+Proof.
+  cbn zeta. split; [reflexivity|]. split; [reflexivity|].
+  change (MetricInv (fst (step (runs init l) (Flush ok)))). apply step_metric, metric_inv.
+Qed.
+
+(* what a flush does persist: the pending counts, which are then zero *)
+Lemma flush_persists_pending s :
+  let s' := fst (step s (Flush true)) in
+  mreads s' = (mreads s + Z.of_N (pend_r s))%Z /\ mwrites s' = (mwrites s + Z.of_N (pend_w s))%Z /\
+  pend_r s' = 0%N /\ pend_w s' = 0%N.
+Proof. repeat split. Qed.
+
+Lemma fault_witness :
+  trace init [SetLimit 1; Put 1 e1 100 true false; PutF 1 {| rev := 0; ety := 1; vid := 2 |} true FLookup;
+              Get 1; Put 1 {| rev := 2; ety := 1; vid := 3 |} 100 true false; Flush true; Access; Info] =
+  [(SetLimit 1, ODone); (Put 1 e1 100 true false, OPut true (Some e1));
+   (PutF 1 {| rev := 0; ety := 1; vid := 2 |} true FLookup, OPut false None);
+   (Get 1, OGet (Some e1));
+   (Put 1 {| rev := 2; ety := 1; vid := 3 |} 100 true false, OPut true (Some {| rev := 2; ety := 1; vid := 3 |}));
+   (Flush true, ODone); (Access, OAccess 1 1); (Info, OInfo 1 1 1)].
+Proof. vm_compute. reflexivity. Qed.
